@@ -19,6 +19,8 @@ import extract  # noqa: E402
 
 VERIF = os.path.dirname(HERE)
 WORK = os.path.join(VERIF, '.work')
+import threading
+LENIENT_LOCK = threading.Lock()
 
 VERUS_FLAGS = ['--no-trait-conflicts', '--triggers-mode', 'silent', '--output-json', '--time']
 
@@ -107,13 +109,33 @@ def run_unit(unit, repo='/repo', rlimit=50, seed=None, threads=None, keep=True, 
     out_path = os.path.join(wd, 'vx_%s.rs' % unit)
     res = {'unit': unit, 'status': None, 'failures': [], 'undecided': [], 'functions': [], 'verified': 0, 'errors': 0,
            'extracts': [], 'trusted': [], 'cmd': None, 'smt_ms': 0, 'wall_s': 0.0, 'file': out_path}
+    lost = []
     try:
-        meta = extract.assemble(VERIF, repo, unit, out_path)
+        try:
+            with LENIENT_LOCK:
+                meta = extract.assemble(VERIF, repo, unit, out_path)
+        except extract.ExtractError as e0:
+            if e0.kind != 'anchor-lost':
+                raise
+            # a proof hint lost its anchor (the function was restructured): retry without the lost hints.  Everything that
+            # then fails in those functions is hint-level: only a concrete witness on the real code can make it a violation.
+            with LENIENT_LOCK:
+                extract.LENIENT['on'] = True
+                extract.LENIENT['lost'] = []
+                try:
+                    meta = extract.assemble(VERIF, repo, unit, out_path)
+                    lost = list(extract.LENIENT['lost'])
+                finally:
+                    extract.LENIENT['on'] = False
+            if not lost:
+                raise e0
     except extract.ExtractError as e:
         res['status'] = 'undecided'
         res['undecided'].append({'reason': e.kind, 'detail': e.msg})
         res['wall_s'] = time.time() - t0
         return res
+    res['lost_hints'] = ['%s %s' % x for x in lost]
+    lost_fns = set(w.split('::')[-1] for w, _ in lost)
     res['extracts'] = meta['extracts']
     res['trusted'] = meta['trusted']
     res['unit_rules'] = meta['unit_rules']
@@ -171,14 +193,17 @@ def run_unit(unit, repo='/repo', rlimit=50, seed=None, threads=None, keep=True, 
             level = 'contract' if ex else 'lemma'
             if ex and line in glines:
                 level = 'hint'
+            if ex and ex.get('name') in lost_fns:
+                level = 'hint'    # hints of this function were dropped (lost anchors): a failure may just be a missing hint
             res['failures'].append({'level': level,
                 'obligation': ob, 'clause': extract.norm_ws(clause)[:200], 'kind': kind, 'message': d['msg'],
                 'function': label, 'real_code': bool(ex), 'source': ({'file': ex['file'], 'lines': ex['lines'], 'sha256': ex['sha256']} if ex else None),
                 'at': extract.norm_ws(src)[:200], 'verus_output': d['text'][:4000]})
         elif cls == 'rlimit':
-            res['undecided'].append({'reason': 'rlimit', 'detail': '%s in %s' % (d['msg'], label)})
+            res['undecided'].append({'reason': 'rlimit', 'detail': '%s in %s' % (d['msg'], label), 'function': label if ex else None})
         else:
-            res['undecided'].append({'reason': 'unsupported-or-tool', 'detail': '%s (%s line %d: %s)' % (d['msg'], label, line, src[:120])})
+            res['undecided'].append({'reason': 'unsupported-or-tool', 'detail': '%s (%s line %d: %s)' % (d['msg'], label, line, src[:120]),
+                                     'function': label if ex else None})
     if js is None and not diags:
         res['undecided'].append({'reason': 'tool-crash', 'detail': 'verus produced no JSON; exit %s; stderr tail: %s' % (p.returncode, p.stderr[-500:])})
     if res['undecided']:
